@@ -265,7 +265,16 @@ Proof. intros H1 H2. unfold check_ref_TSneParams, spec_TSneParams, nonneg_bit. g
 
 Lemma exact_FastIca p : wf (FastIcaValidParams_tol p) ->
   check_ref_FastIcaParams fm p = None <-> g_act (spec_FastIcaParams fm p) = true.
-Proof. intros H. unfold check_ref_FastIcaParams, spec_FastIcaParams. guard_tac. Qed.
+Proof.
+  intros H. unfold check_ref_FastIcaParams, spec_FastIcaParams. cbn [g_act].
+  destruct (FastIcaValidParams_gfunc p) as [a| |]; cbn [logcosh_ok].
+  - change (range_incl_contains one64 (S754_finite false 4503599627370496 (-51)) a) with (fle one64 a && fle a two64).
+    destruct (fle one64 a && fle a two64); cbn [negb seqf].
+    + rewrite andb_true_r. guard_tac.
+    + rewrite andb_false_r. split; discriminate.
+  - rewrite andb_true_r. guard_tac.
+  - rewrite andb_true_r. guard_tac.
+Qed.
 
 Lemma exact_DiffusionMap p :
   check_ref_DiffusionMapParams fm p = None <-> g_act (spec_DiffusionMapParams fm p) = true.
